@@ -33,7 +33,20 @@ func runC08(rc *RunCtx) {
 	nK := 1 + G.Draw(5)
 	var keys []*Key
 	for i := 0; i < nK; i++ {
-		keys = append(keys, mkKey(fmt.Sprintf("key-%d", i), cipherNames[G.Draw(4)], fmt.Sprintf("c08-secret-%d", i)))
+		k := mkKey(fmt.Sprintf("key-%d", i), cipherNames[G.Draw(4)], fmt.Sprintf("c08-secret-%d", i))
+		// now and then the secret of an earlier key under another cipher (the pair
+		// of cipher and secret stays unique, so "the matched key" stays unambiguous)
+		if i > 0 && G.Draw(3) == 0 {
+			o := keys[G.Draw(len(keys))]
+			if c := cipherNames[G.Draw(4)]; c != o.Cipher {
+				cand := mkKey(k.ID, c, o.Secret)
+				if !configured(keys, cand) {
+					k = cand
+					simrt.Probe("one_secret_under_two_ciphers")
+				}
+			}
+		}
+		keys = append(keys, k)
 	}
 	T := []time.Duration{100 * time.Millisecond, time.Second, 59 * time.Second}[G.Draw(3)]
 	replay := []int{0, 0, 100}[G.Draw(3)]
